@@ -5,7 +5,8 @@ Container level of ANM files: `read_anm` / `write_anm` (src/formats/anm/read_wri
 * the entry chain (`next_offset`, the `entry_positions` loop check of `read_entry`);
 * the two 64-byte entry header layouts: old (versions 0, 2, 3, 4 = TH06-TH10: 32-bit fields, colorkey,
   secondary name offset) and new (versions 7, 8 = TH11 and later: 16-bit fields, `offset_x` / `offset_y`,
-  `low_res_scale`; `write_header` rejects a value that does not fit 16 bits since c69e070);
+  `low_res_scale`; `write_header` rejects a value that does not fit 16 bits since c69e070, `write_entry` a field the layout
+  of the version has no room for and `write_texture` THTX dimensions beyond 16 bits since db48965);
 * sprite offset table + sprites, script table `(id, offset)` + scripts as instruction streams
   (`InstrIO.Fmt.msg` in version 0, `.anm07` afterwards, `llir::read_instrs` with the end offset
   "smallest offset of the entry above the script's own"), path / secondary path as 16-byte-block padded
@@ -173,6 +174,18 @@ def anmHeaderBytes (fmt : AnmFmt) (h : AnmHeader) : Bytes :=
       h.offsetX, h.offsetY, h.memoryPriority, h.thtxOffset, h.hasData, h.lowResScale, h.nextOffset, 0, 0, 0, 0, 0, 0]
 
 def anmTooLarge : String := "too large for this version of the ANM format"
+def anmNoField : String := "cannot be stored in this version of the ANM format"
+def anmImageTooLarge : String := "too large for an embedded image"
+
+/-- the `no_field` checks at the start of `write_entry` (db48965): what the header layout of the version has no room for
+must be absent / zero.  Old layout: offset_x, offset_y, low_res_scale; new layout: colorkey, path_2 (one diagnostic class). -/
+def anmLayoutHolds (fmt : AnmFmt) (e : AnmEntry) : Bool :=
+  if fmt.oldHeader then e.specs.offsetX == 0 && e.specs.offsetY == 0 && !e.specs.lowResScale
+  else e.specs.colorkey == 0 && e.path2.isNone
+
+/-- `fit16` of `write_texture` (db48965): img_format, img_width, img_height -/
+def texMetaFits (m : TexMeta) : Bool :=
+  decide (m.format.toNat < 65536) && decide (m.width.toNat < 65536) && decide (m.height.toNat < 65536)
 
 /-- `fit16` of `write_header` (new layout only), in the order of the code: number of sprites, number of
 scripts, rt_width, rt_height, rt_format, offset_x, offset_y -/
@@ -198,7 +211,7 @@ def writeSprites : UInt32 → List (Nat × Sprite) → Bytes × UInt32
     let rest := writeSprites (id + 1) r
     (anmSpriteBytes id s ++ rest.1, rest.2)
 
-/-- `write_texture`: format, width, height `as u16`, the data length `as u32` -/
+/-- `write_texture` once format, width, height have passed `fit16` (`texMetaFits`); the data length `as u32` -/
 def writeTexture (m : TexMeta) (d : Bytes) : Bytes :=
   thtxMagic ++ u16 0 ++ u16 m.format.toNat ++ u16 m.width.toNat ++ u16 m.height.toNat ++ u32 d.length ++ d
 
@@ -231,19 +244,22 @@ def anmHeaderOf (fmt : AnmFmt) (e : AnmEntry) (thtx next : Nat) : AnmHeader :=
     secNameOffset := match e.path2 with | some _ => anmBase e + (anmPathBytes e).length | none => 0,
     thtxOffset := thtx, nextOffset := next }
 
-/-- the texture step of `write_entry`: `texture_metadata.as_ref().expect("always Some if texture_data is")` -/
+/-- the texture step of `write_entry`: `texture_metadata.as_ref().expect("always Some if texture_data is")`, then
+`write_texture`, which refuses a format / width / height beyond 16 bits before it writes anything -/
 def writeAnmTexture (e : AnmEntry) : Outcome Bytes :=
   match e.texData with
   | none => .ok []
   | some d =>
     match e.texMeta with
-    | some m => .ok (writeTexture m d)
+    | some m => if texMetaFits m then .ok (writeTexture m d) else .err anmImageTooLarge
     | none => .panic "src/formats/anm/read_write.rs: always Some if texture_data is"
 
 /-- `write_entry` of one entry; `last` = no entry follows (`next_offset` stays 0, otherwise `write_anm`
 patches it to the length of this entry when it starts the next one).  Order of the failure points as in
-the code: the 16-bit header fields, the scripts, `texture_metadata.expect(..)`. -/
+the code: fields the layout has no room for, the 16-bit header fields, the scripts, `texture_metadata.expect(..)`,
+the 16-bit THTX fields. -/
 def writeAnmEntry (fmt : AnmFmt) (auto : UInt32) (e : AnmEntry) (last : Bool) : Outcome (Bytes × UInt32) :=
+  if !anmLayoutHolds fmt e then .err anmNoField else
   if !anmHeaderFits fmt (anmHeaderOf fmt e 0 0) then .err anmTooLarge else
   let sprites := writeSprites auto e.sprites
   match writeScriptList fmt.instr (anmScriptsStart e) (e.scripts.map (·.2.instrs)) with
